@@ -3,6 +3,7 @@ C02 - every placer returns a feasible, constraint-respecting placement or fails 
 documented error.  Property theorems; the lemmas are in RigModel/Lemmas/C02*.lean.
 -/
 import RigModel.Lemmas.C02Merge2
+import RigModel.Lemmas.C02Term
 set_option linter.unusedSimpArgs false
 set_option linter.unusedVariables false
 
@@ -233,5 +234,64 @@ theorem validPlacement_iff (vr : VR) (cs : List Constraint) (m : Machine) (p : P
     rw [if_neg (by simp [c1]), if_neg (by simp [c2]), if_neg (by rw [c3]; simp), if_neg (by simp [c4]),
       if_neg (by simp [c5])]
     rfl
+
+/-- **Termination (sequential family).**  The model's only unbounded loop, the cyclic chip scan
+with the `last_successful_chip` stop rule, is run with the step bound `len(chips)` per vertex;
+for every input the bound is never exhausted: each vertex tries at most every chip once.  (All
+other loops of `sequential.place` are `for` loops over finite lists and are structurally
+recursive in the model.) -/
+theorem seqPlace_terminates (vr : VR) (cs : List Constraint) (m : Machine)
+    (vertexOrder : Option (List Vtx)) (chipOrder : Option (List Chip)) :
+    seqPlace vr cs m vertexOrder chipOrder ≠ .error .fuel := by
+  unfold seqPlace
+  split
+  · simp
+  · cases hA : applySame vr cs with
+    | error e =>
+      simp only [bind, Except.bind]
+      intro h; injection h with h; subst h
+      exact applySameLoop_no_fuel _ _ _ _ _ hA
+    | ok r =>
+      obtain ⟨vr', cs', subs⟩ := r
+      cases hP : prepareLoop vr' cs' m [] with
+      | error e =>
+        simp only [hP, bind, Except.bind]
+        intro h; injection h with h; subst h
+        exact prepareLoop_no_fuel _ _ _ _ hP
+      | ok r2 =>
+        obtain ⟨m', fixed⟩ := r2
+        have core : ∀ order,
+            (if ((chipOrder.getD m'.chips).filter m'.ok).isEmpty = true then (Except.error Err.insufficient : M Placement)
+             else (seqLoop vr' ((chipOrder.getD m'.chips).filter m'.ok) order 0 m' fixed).bind (finalise subs))
+              ≠ .error .fuel := by
+          intro order
+          split
+          · simp
+          · rename_i hne
+            have hne' : (chipOrder.getD m'.chips).filter m'.ok ≠ [] := by
+              intro e; rw [e] at hne; simp at hne
+            cases hL : seqLoop vr' ((chipOrder.getD m'.chips).filter m'.ok) order 0 m' fixed with
+            | error e =>
+              simp only [Except.bind]
+              intro h; injection h with h; subst h
+              exact seqLoop_no_fuel vr' _ hne' _ _ _ _ hL
+            | ok pf =>
+              simp only [Except.bind]
+              exact finaliseFrom_no_fuel _ _ _
+        cases vertexOrder with
+        | none =>
+          have := core (keys vr')
+          simp only [hP, bind, Except.bind, pure, Except.pure] at this ⊢
+          exact this
+        | some vo =>
+          cases hS : substOrder 0 subs vo with
+          | error e =>
+            simp only [hP, hS, bind, Except.bind]
+            intro h; injection h with h; subst h
+            exact substOrder_no_fuel _ _ _ hS
+          | ok order =>
+            have := core order
+            simp only [hP, hS, bind, Except.bind] at this ⊢
+            exact this
 
 end Rig.C02
